@@ -5,7 +5,8 @@
 S = "isla/solver.py::ISLaSolver.solve"
 record("ISLaSolver", module="isla.solver", file="isla/solver.py",
        fields={"timeout_seconds": "Opt[Int]", "start_time": "Opt[Int]", "queue": "List[Any]",
-               "solutions": "List[Any]", "step_cnt": "Int"},
+               "solutions": "List[Any]", "step_cnt": "Int",
+               "formula": "Any", "grammar": "Any", "top_constant": "Any"},
        value_eq=False, mutable=["start_time", "step_cnt"])
 
 # P1 exhaustion: with an empty queue and no pending solution every call raises StopIteration and
